@@ -1,4 +1,5 @@
 import Driver.B64
+import Driver.Rng
 /-
 Line protocol driver: `<suite> <op> <args…>` per input line, one result line out.
 Compiled (`lean_exe modeldrv`); nothing imported here touches Mathlib.
@@ -6,6 +7,7 @@ Compiled (`lean_exe modeldrv`); nothing imported here touches Mathlib.
 def dispatch (line : String) : String :=
   match (line.trimAscii.toString.splitOn " ").filter (· ≠ "") with
   | "b64" :: rest => Driver.B64.handle rest
+  | "rng" :: rest => Driver.Rng.handle rest
   | _ => Driver.bad
 
 partial def loop (h : IO.FS.Stream) (out : IO.FS.Stream) : IO Unit := do
